@@ -57,7 +57,7 @@ func C19Scenario() *Scenario {
 		byID := map[int]*c19Call{}
 		etagBody := map[string]int64{} // ETag -> status.call of the body it was sent with
 		etagAt := map[string]time.Duration{}
-		etagBad := map[string]bool{} // the body sent with this ETag has an unknown field
+		etagBad := map[string]bool{}     // the body sent with this ETag has an unknown field
 		lastEtagStep := map[string]int{} // parent -> kernel step of the last answer that carried an ETag
 		nextID := 0
 		allDone := func() bool {
